@@ -24,6 +24,9 @@ _CTRL_EVENT_FORMAT = "control={0},{1}"
 
 
 def _combine_event_and_control(event: str, control: str) -> str:
+    if pd.isnull(event):
+        # rows outside the conditioned label class belong to no event
+        return event
     if pd.notnull(control):
         return _CTRL_EVENT_FORMAT.format(control, event)
     return event
